@@ -37,8 +37,9 @@ type c03WriteRec struct {
 func newC03StreamTap(t0 time.Time, closingC2S bool, stall bool) *c03StreamTap {
 	t := &c03StreamTap{t0: t0, closingC2S: closingC2S, stall: stall, writes: map[int][]c03WriteRec{}}
 	if stall {
-		// safety cap: if Close() is never reached the connection is released after 8 s
-		t.releaseAt.Store(t0.Add(8 * time.Second).UnixNano())
+		// safety cap: if Close() is not reached (Write itself can wait for oLock while the output loop is
+		// blocked in a network write) the connection is released after 4 s
+		t.releaseAt.Store(t0.Add(4 * time.Second).UnixNano())
 	}
 	return t
 }
